@@ -5,6 +5,7 @@
 #include "diagnostics/stacktrace.h"
 #include "d_array.h"
 #include "d_string.h"
+#include "d_scalar.h"
 #include "diagnostics/d_stacktrace.h"
 
 #include <optional>
@@ -308,6 +309,13 @@ sqf::runtime::runtime::result sqf::runtime::runtime::execute(sqf::runtime::runti
 {
     sqf::runtime::runtime::result res = result::invalid;
     bool expected = false;
+    // whatever gets printed by this thread from now on uses the print mode (`toFixed`) of this runtime
+    struct decimals_scope
+    {
+        int* previous;
+        decimals_scope(int* active) : previous(sqf::types::d_scalar::decimals_active(active)) {}
+        ~decimals_scope() { sqf::types::d_scalar::decimals_active(previous); }
+    } decimals_scope_instance(&m_scalar_decimals);
     switch (action)
     {
     case action::leave_scope:
